@@ -22,7 +22,9 @@ var specFiles = []string{"spec.go", "default_validator.go", "example_validator.g
 
 // range expressions known to be slices (fields of go-openapi/spec types, results of listed calls)
 var sliceFields = map[string]bool{"AllOf": true, "AnyOf": true, "OneOf": true, "Required": true, "Parameters": true,
-	"Schemas": true, "Enum": true, "Errors": true, "Warnings": true}
+	"Schemas": true, "Enum": true, "Errors": true, "Warnings": true,
+	// slices and fixed-size arrays of child validators (struct fields of the package's own validator types)
+	"validators": true, "anyOfValidators": true, "oneOfValidators": true, "allOfValidators": true}
 var sliceCalls = map[string]bool{"strings.Split": true, "FindAllStringSubmatch": true, "OperationIDs": true, "AllRefs": true,
 	"safeExpandedParamsFor": true, "extractPathParams": true, "AllParameterReferences": true, "AllResponseReferences": true, "AllDefinitionReferences": true}
 
@@ -172,9 +174,27 @@ func rangeExits(rs *ast.RangeStmt, ownLabel string) []string {
 	return out
 }
 
-func exitRangeFacts(p *pkgInfo) []exitRange {
+func exitRangeFacts(p *pkgInfo) []exitRange { return exitRangeFactsIn(p, specFiles) }
+
+// every other file of the package: validators, results, helpers (C08: a long-lived validator's answer must not
+// depend on the order Go ranges over the instance's or the schema's maps)
+func validatorExitRangeFacts(p *pkgInfo) []exitRange {
+	spec := map[string]bool{}
+	for _, f := range specFiles {
+		spec[f] = true
+	}
+	var files []string
+	for _, f := range p.sortedFiles() {
+		if !spec[f] {
+			files = append(files, f)
+		}
+	}
+	return exitRangeFactsIn(p, files)
+}
+
+func exitRangeFactsIn(p *pkgInfo, names []string) []exitRange {
 	var out []exitRange
-	for _, fn := range specFiles {
+	for _, fn := range names {
 		f := p.files[fn]
 		if f == nil {
 			continue
@@ -202,13 +222,65 @@ func exitRangeFacts(p *pkgInfo) []exitRange {
 				if len(exits) == 0 {
 					return true
 				}
+				class := p.classifyRange(fd, rs.X)
+				if class != "slice" && isExistenceSearch(rs) {
+					class = "exists" // `if cond { flag = true; break }`: whether some key satisfies cond does not depend on the order
+				}
 				out = append(out, exitRange{Site: p.pos(rs), Func: funcKey(fd), Expr: p.src(rs.X),
-					Exit: strings.Join(exits, ","), Class: p.classifyRange(fd, rs.X)})
+					Exit: strings.Join(exits, ","), Class: class})
 				return true
 			})
 		}
 	}
 	return out
+}
+
+// isExistenceSearch: the loop body only defines locals, skips keys with `if … { continue }`, and ends with
+// `if <cond> { <ident> = true; break }` — whether some key satisfies the condition does not depend on the order
+func isExistenceSearch(rs *ast.RangeStmt) bool {
+	n := len(rs.Body.List)
+	if n == 0 {
+		return false
+	}
+	for _, st := range rs.Body.List[:n-1] {
+		switch x := st.(type) {
+		case *ast.AssignStmt:
+			if x.Tok != token.DEFINE {
+				return false
+			}
+		case *ast.IfStmt:
+			if x.Else != nil || len(x.Body.List) != 1 {
+				return false
+			}
+			br, ok := x.Body.List[0].(*ast.BranchStmt)
+			if !ok || br.Tok != token.CONTINUE || br.Label != nil {
+				return false
+			}
+		default:
+			return false
+		}
+	}
+	is, ok := rs.Body.List[n-1].(*ast.IfStmt)
+	if !ok || is.Else != nil || len(is.Body.List) != 2 {
+		return false
+	}
+	if is.Init != nil {
+		if as, ok := is.Init.(*ast.AssignStmt); !ok || as.Tok != token.DEFINE {
+			return false
+		}
+	}
+	as, ok := is.Body.List[0].(*ast.AssignStmt)
+	if !ok || len(as.Lhs) != 1 || len(as.Rhs) != 1 || as.Tok != token.ASSIGN {
+		return false
+	}
+	if _, ok := as.Lhs[0].(*ast.Ident); !ok {
+		return false
+	}
+	if id, ok := as.Rhs[0].(*ast.Ident); !ok || id.Name != "true" {
+		return false
+	}
+	br, ok := is.Body.List[1].(*ast.BranchStmt)
+	return ok && br.Tok == token.BREAK && br.Label == nil
 }
 
 // pipelineFacts: the body of (*SpecValidator).Validate from the first errs.Merge on
@@ -366,6 +438,16 @@ func genSpecFacts(p *pkgInfo) string {
 	for i, e := range er {
 		fmt.Fprintf(&b, "  { site := %s, func := %s, expr := %s, exit := %s, cls := %s }", leanStr(e.Site), leanStr(e.Func), leanStr(e.Expr), leanStr(e.Exit), leanStr(e.Class))
 		if i+1 < len(er) {
+			b.WriteString(",")
+		}
+		b.WriteString("\n")
+	}
+	b.WriteString("]\n\n")
+	b.WriteString("/-- the same for every other file of the package (validators, results, values) -/\ndef validatorExitRanges : List ExitRange := [\n")
+	ver := validatorExitRangeFacts(p)
+	for i, e := range ver {
+		fmt.Fprintf(&b, "  { site := %s, func := %s, expr := %s, exit := %s, cls := %s }", leanStr(e.Site), leanStr(e.Func), leanStr(e.Expr), leanStr(e.Exit), leanStr(e.Class))
+		if i+1 < len(ver) {
 			b.WriteString(",")
 		}
 		b.WriteString("\n")
